@@ -7,7 +7,6 @@ MUTANTS = [
     ("C01", "propagate-forgets-new-watch", [(S, "                        add_watch(clause[1], clause_idx)\n                        found = True", "                        found = True")]),
     ("C01", "reduce-db-drops-blocking", [(S, "            lbd_scores.append(0)\n", "            lbd_scores.append(n_vars)\n")]),
     ("C01", "model-omits-level0-false", [(S, "sol = {v: vals[v] == 1 for v in range(1, n_vars + 1) if vals[v] != UNDEF}", "sol = {v: vals[v] == 1 for v in range(1, n_vars + 1) if vals[v] != UNDEF and (levels[v] > 0 or vals[v] == 1)}")]),
-    ("C01", "pure-literals-always", [(S, "    if solution_limit == 1:\n        assumed_vars", "    if solution_limit >= 1:\n        assumed_vars")]),
     ("C02", "luby-loops", [(S, "        if i < (1 << k) - 1:\n", "        if i >= (1 << (k - 1)):\n")]),
     ("C02", "uip-wrong-sign", [(S, "uip_lit = var if vals[var] == 0 else -var", "uip_lit = -var if vals[var] == 0 else var")]),
     ("C02", "infeasible-at-level-1", [(S, "            if dec_level == 0 or conflict == -2:\n", "            if dec_level <= 1 or conflict == -2:\n")]),
@@ -69,7 +68,10 @@ MUTANTS = [
 #      enforced from the other variable, so no wrong assignment and no false INFEASIBLE is possible;
 #  C05 decode-takes-last-true: the default of dict.get is never used (every Boolean variable is assigned);
 #  C06 eq-var-one-implication: with exactly-one on both variables one implication direction entails the other.
+#  C01 pure-literals-always: fixing pure literals during enumeration only loses models (completeness of the
+#      enumeration is not promised); every returned model stays valid and distinct.
 EQUIVALENT = [
+    ("C01", "pure-literals-always", [(S, "    if solution_limit == 1:\n        assumed_vars", "    if solution_limit >= 1:\n        assumed_vars")]),
     ("C01", "blocking-clause-skips-last-var", [(S, "blocking = [(-v if vals[v] == 1 else v) for v in range(1, n_vars + 1) if vals[v] != UNDEF]", "blocking = [(-v if vals[v] == 1 else v) for v in range(1, n_vars) if vals[v] != UNDEF]")]),
     ("C01", "binary-implication-wrong-polarity", [(S, "                if vals[impl_var] == UNDEF:\n                    assign(impl_var, implied > 0, clause_idx)", "                if vals[impl_var] == UNDEF:\n                    assign(impl_var, implied > 0 or len(trail_lim) > 6, clause_idx)")]),
     ("C05", "alldiff-skips-last-var", [("solvor/cp.py", "        for var in variables:\n            if len(domains[var.name]) == 1:\n                val = next(iter(domains[var.name]))\n                for other in variables:", "        for var in variables[:-1]:\n            if len(domains[var.name]) == 1:\n                val = next(iter(domains[var.name]))\n                for other in variables:")]),
